@@ -164,7 +164,17 @@ func randomCase(e *emitter, rng *proto.RNG, tier string) {
 	n := rng.Range(20, 120)
 	v := 1
 	pre := ""
+	// one case in three: the actor records a marker event while handling OnTerminate (stop and restart)
+	if rng.Intn(3) == 0 {
+		e.op("farewell %d", 900+rng.Intn(5))
+		if two && rng.Bool() {
+			e.op("@b farewell %d", 950+rng.Intn(5))
+		}
+	}
 	for i := 0; i < n; i++ {
+		if i > 0 && i%37 == 0 && rng.Intn(4) == 0 {
+			e.op("farewell %d", []int{0, 990, 991}[rng.Intn(3)])
+		}
 		if two {
 			pre = ""
 			if rng.Bool() {
@@ -263,6 +273,37 @@ func malformed(e *emitter, rng *proto.RNG) {
 	}
 }
 
+// farewellCases: an event recorded while handling OnTerminate, for every threshold 0..3, at a restart and
+// at a stop, alone and after ordinary events, then the next generation's state, the stored record and a
+// further generation
+func farewellCases(e *emitter) {
+	for thr := 0; thr <= 3; thr++ {
+		for _, end := range []string{"fail", "recreate"} {
+			for pre := 0; pre <= 2; pre++ {
+				if !e.begin(fmt.Sprintf("farewell thr=%d %s pre=%d", thr, end, pre)) {
+					continue
+				}
+				e.op("spawn %d rec now name", thr)
+				e.op("farewell 77")
+				for i := 1; i <= pre; i++ {
+					e.op("ev %d", i)
+				}
+				e.op(end)
+				e.op("get")
+				e.op("stored")
+				e.op("saves")
+				e.op("ev 5")
+				e.op(end)
+				e.op("get")
+				e.op("farewell 0")
+				e.op("recreate")
+				e.op("get")
+				e.op("replay")
+			}
+		}
+	}
+}
+
 func genPersist(rng *proto.RNG, tier string, shard, nshards int, w *bufio.Writer) {
 	e := &emitter{w: w, shard: shard, nshards: nshards}
 	lenCore, lenWide, lenPair, nrand := 7, 5, 4, 600
@@ -288,6 +329,7 @@ func genPersist(rng *proto.RNG, tier string, shard, nshards int, w *bufio.Writer
 		exhaustive(e, alphaWide, thr, lenWide, "wide")
 	}
 	pairs(e, lenPair)
+	farewellCases(e)
 	for i := 0; i < nrand; i++ {
 		randomCase(e, rng, tier)
 	}
